@@ -922,3 +922,18 @@ Example other_walk_fault_escapes :
   let w := mkWorld [("p", FPkg top [] None)] [(["p"], mkBeh (Some ["sp"]) true [] None)] [] [(["p"], XRuntimeError)] in
   fst (session w true true true [["sp"]] [] "p" [] (init_state [["orig"]])) = Some XRuntimeError.
 Proof. vm_compute. reflexivity. Qed.
+
+(* non-vacuity of the nested phase: a package with stubs whose wildcard expansion loads the private sibling `_p`
+   (a compiled submodule of `_p` is imported because inspection is allowed) between the submodules and the stubs *)
+Example nested_phase_exercised :
+  let top := mkMod ["p"] ["sp"; "p"] "__init__" ".py" None in
+  let stub := mkMod ["p"] ["sp"; "p"] "__init__" ".pyi" None in
+  let sib := mkMod ["_p"] ["sp"; "_p"] "__init__" ".py" None in
+  let sibc := mkMod ["_p"; "c"] ["sp"; "_p"] "c" ".pyc" None in
+  let w := mkWorld [("p", FPkg top [] (Some (stub, []))); ("_p", FPkg sib [sibc] None)]
+                   [(["_p"], mkBeh (Some ["sp"]) true [EClear] None); (["_p"; "c"], mkBeh None true [] (Some XKeyboardInterrupt))] [] [] in
+  let '(r, s') := session w true false true [["sp"]] ["_p"] "p" [] (init_state [["orig"]]) in
+  r = None /\ cur s' = 0 /\ heap s' 0 = [["orig"]] /\ mods s' = [["_p"]] /\
+  map (fun e => match e with EvVisit n sfx => (n, sfx) | _ => ([], "") end) (filter (fun e => match e with EvVisit _ _ => true | _ => false end) (rev (log s')))
+    = [(["p"], ".py"); (["_p"], ".py"); (["p"], ".pyi")].
+Proof. vm_compute. repeat split. Qed.
